@@ -170,10 +170,10 @@ class ZpLinear(Problem):
     dtype_u = zmesh
     dtype_f = zmesh
 
-    def __init__(self, A=((1,),), B=None, quad=0):
+    def __init__(self, A=((1,),), B=None, quad=0, g=None):
         n = len(A)
         super().__init__(init=(n, None, np.dtype('int64')))
-        self._makeAttributeAndRegister('A', 'B', 'quad', localVars=locals(), readOnly=True)
+        self._makeAttributeAndRegister('A', 'B', 'quad', 'g', localVars=locals(), readOnly=True)
         self.n = n
         self.work_counters['rhs'] = WorkCounter()
         self.work_counters['solve'] = WorkCounter()
@@ -188,6 +188,8 @@ class ZpLinear(Problem):
             f = f + self._apply(self.B, u)
         if self.quad:
             f = f + zmesh([(self.quad * int(a) * int(a)) % P for a in u.v])
+        if self.g is not None:
+            f = f + hom(t) * zmesh(list(self.g))  # time-dependent forcing
         return f
 
     def solve_system(self, rhs, factor, u0, t):
@@ -255,6 +257,8 @@ class ZpIMEX(ZpLinear):
         e = self._apply(self.B, u) if self.B is not None else zmesh((self.n, None, None))
         if self.quad:
             e = e + zmesh([(self.quad * int(a) * int(a)) % P for a in u.v])
+        if self.g is not None:
+            e = e + hom(t) * zmesh(list(self.g))  # time-dependent forcing
         f.expl = e
         return f
 
